@@ -13,6 +13,9 @@ import KcpVerif.Lemmas.SysDrainCons2
 import KcpVerif.Lemmas.SysWedgeRepaired
 import KcpVerif.Lemmas.SysDrainReturn
 import KcpVerif.Lemmas.SysDrainReturn2
+import KcpVerif.Lemmas.SysDrainTimer2
+import KcpVerif.Lemmas.SysDrainHead3
+import KcpVerif.Lemmas.SysDrainOrder
 /-! C02 — eventual delivery: a healed network always drains the backlog. -/
 namespace KcpVerif.Props
 open KcpVerif KcpVerif.Gen KcpVerif.Kcp KcpVerif.Live
@@ -902,5 +905,132 @@ example : (∃ gab gba, SysC.Cons ⟨SysC.wedgeA.snd_nxt, SysC.wedgeA.conv, 0, 0
     (SysC.netRun (Sys.init SysC.wedgeA SysC.wedgeB 0 1000) c02RetEvs).now ≤ 1010 :=
   ⟨SysC.cons_netRun c02RetEvs _ [] [] (SysC.cons_init _ _ 0 1000 false false (by decide)) (by decide),
    by decide, by decide, by decide, by decide⟩
+
+/-! ### phase A with its deadline, and the whole chain for a lost ACK
+
+`SysC.Keeps`: no `Input` touches `resendts` or `xmit` of a segment that stays in the send buffer;
+`Live.LiveInv` (kc02): the head of the send buffer is never flagged; `SysC.P1`: the head waits for its
+timer and A's next flush is at or before `T1`. -/
+
+open KcpVerif.Sys KcpVerif.SysC in
+/-- **The progress step for a head segment whose ACK was lost — all phases, with the bound.**  Any
+consistent state (`Cons`, after any fault history), A's head live (`LiveInv`), B flushing at least every
+`IB` ms (`Tm`), A every `IA` ms.  The head of A's send buffer has offset `U`, was sent before, its timer
+is at `R`, B has already delivered it (`P1`; `T1 ≥ R + IA` bounds A's next flush, e.g.
+`T1 = max(R, now) + IA`).  Then in EVERY later state of the fair system whose clock is past
+`T1 + D + IB + D`, A's `snd_una` is beyond `U`: the segment was retransmitted by A's first flush at or
+after `R` (earlier if a fast retransmission fired), re-acknowledged by B, and released — whatever
+datagrams were in flight, whatever else both sides did in between.  This is
+`resendts − now + interval_A + 2 D + interval_B` of the full statement.  `RunSmall`: fewer than 2^30
+segments, receive window below 2^30. -/
+theorem C02_progress_step_lost_ack {p : Par} {s : State} {gab gba : GLink} (h : Cons p s gab gba) (hl : Live.LiveInv s.A)
+    (U R T1 IA IB : Nat) (hT : R + IA ≤ T1 ∧ T1 < R + 2 ^ 31) (ht : Tm IB s) (h1 : P1 p U R T1 IA s)
+    (evs : List Ev) (hsm : RunSmall p.base s evs) (hnow : T1 + s.D + IB + s.D < (Sys.run s evs).now) :
+    U < o p.base (Sys.run s evs).A.snd_una :=
+  ret3_done h hl U R T1 IA IB hT ht h1 evs hsm hnow
+
+/-! ### the progress step for the head segment in general
+
+On the repaired model an individual ACK for the HEAD of the send buffer releases it, so the frame that
+lets `snd_una` pass `U` is any frame with `una` beyond `U` or an ACK for `U` itself (`SysC.Rel`), and B
+owes one as soon as its ack list holds an entry for `U` — whether or not it could move the segment to
+its delivery queue (`SysC.Owe`; the jitter filter keeps entries at or beyond `rcv_nxt`,
+`SysC.owe_flush`).  Hence the queue-full case needs no detour over `Recv` and WINS for the head. -/
+
+open KcpVerif.Sys KcpVerif.SysC in
+/-- **`C02_progress_step` for the head segment.**  Any consistent state (`Cons`: after any fault
+history), A's head live (`LiveInv`), B flushing at least every `IB` ms (`Tm`), A every `IA` ms.  The head
+of A's send buffer has offset `U`, was sent before, its timer is at `R`; B is not behind it
+(`U ≤ rcv_nxt` — B has delivered everything below A's head; it need NOT have the segment `U`, its queue
+may be full when the segment arrives); `T1 ≥ R + IA` bounds A's next flush (`P1H`).  Then in EVERY later
+state of the fair system whose clock is past `T1 + D + IB + D`, A's `snd_una` is beyond `U`:
+retransmitted by the first flush at or after `R`, accepted or re-acknowledged by B (the ACK entry for
+`U` is listed even if the delivery queue is full), the releasing frame flushed within `IB`, input by A
+within `D`.  Run hypothesis `RunSmallH`: fewer than 2^30 segments, `1 ≤ rcv_wnd < 2^30`. -/
+theorem C02_progress_step_head {p : Par} {s : State} {gab gba : GLink} (h : Cons p s gab gba) (hl : Live.LiveInv s.A)
+    (U R T1 IA IB : Nat) (hT : R + IA ≤ T1 ∧ T1 < R + 2 ^ 31) (ht : Tm IB s) (h1 : P1H p U R T1 IA s)
+    (evs : List Ev) (hsm : RunSmallH p.base s evs) (hnow : T1 + s.D + IB + s.D < (Sys.run s evs).now) :
+    U < o p.base (Sys.run s evs).A.snd_una :=
+  retH3_done h hl U R T1 IA IB hT ht h1 evs hsm hnow
+
+open KcpVerif.Sys KcpVerif.SysC in
+/-- **Phase D, general**: a frame that releases `U` (`una` beyond `U`, or an ACK for the head `U`) input by
+A moves `snd_una` beyond `U`. -/
+theorem C02_phase_release_arrives {p : Par} {s : State} {t0 : Nat} {frs : List Wire.Frm} {gab grest : GLink}
+    (h : Cons p s gab ((t0, frs) :: grest)) (hnw : NoWrap p.base s) (hdue : t0 ≤ s.now) (U : Nat)
+    (hU : U ≤ o p.base s.A.snd_una) (hrel : ∃ fr ∈ frs, Rel p.base U fr) :
+    U < o p.base (Sys.step s .dlvA).A.snd_una := phase_D_rel h hnw hdue U hU hrel
+
+/-! what remains of `C02_progress_step_full` / `C02_drain_full` after this:
+* the hypothesis `U ≤ rcv_nxt(B)` of `P1H` follows from `Cons.arel`, the fixpoint of the move loop
+  (`MoveFix`) and "the delivery queue is not full" (true at every `tick` under the fair reader) ONCE the
+  order of `rcv_buf` is part of the invariant — not done;
+* a head that has never been sent (`xmit = 0`, admitted by an ACK-only flush): phase A emits it at the
+  next flush (`C02_phase_retx_emitted`), the chain is the same with `R = now`;
+* zero-window probing for the send QUEUE, and the induction on outstanding + queued segments. -/
+
+/-! ### B is not behind A's head; the progress step without that hypothesis
+
+`SysC.SortedB` (B's reorder buffer sorted, at or after `rcv_nxt`) and `Live.MoveFix` are kept by every
+event (`SysC.sortedB_step`, `SysC.fix_step`); with `Live.LiveInv` for A they form `SysC.Side`, which
+holds together with `Cons` after ANY fault history from two fresh cores (`SysC.cons_side_netRun`,
+`SysC.side_init`). -/
+
+open KcpVerif.Sys KcpVerif.SysC in
+/-- **B is not behind A's head whenever its delivery queue is not full** — in particular at every
+`tick` of the system with a fair reader (a `tick` is refused while something is readable).  From
+`Cons.arel` (B has everything below `snd_una`), the order of the reorder buffer and the fixpoint of the
+move loop. -/
+theorem C02_receiver_not_behind {p : Par} {s : State} {gab gba : GLink} (h : Cons p s gab gba) (hs : Side p.base s)
+    (hq : s.B.rcv_queue.length < s.B.rcv_wnd.toNat) :
+    o p.base s.A.snd_una ≤ o p.base s.B.rcv_nxt := not_behind h hs.srt hs.fix hq
+
+open KcpVerif.Sys KcpVerif.SysC in
+/-- **`C02_progress_step`** — the head segment, arbitrary reachable state, fair network and fair reader
+from now on.  Hypotheses: `Cons` and `Side` (both hold after ANY fault history, see above); B's delivery
+queue is not full now (true at every `tick`); B flushes at least every `IB` ms (`Tm`), A every `IA` ms
+with its next flush at or before `T1 ≥ R + IA` (e.g. `T1 = max(R, now) + IA`); the head `x` of A's send
+buffer has been sent before and its timer is at `R`.  Conclusion: in EVERY later state of the fair
+system whose clock is past `T1 + D + IB + D`, `snd_una` is beyond `x.sn` — the segment has been
+retransmitted, accepted or re-acknowledged, and released.  Bound: `resendts − now + interval_A + 2 D +
+interval_B` as in `C02_progress_step_full`.  Run hypothesis `RunSmallH` (fewer than 2^30 segments,
+`1 ≤ rcv_wnd < 2^30`); data from A to B only. -/
+theorem C02_progress_step {p : Par} {s : State} {gab gba : GLink} (h : Cons p s gab gba) (hs : Side p.base s)
+    (hq : s.B.rcv_queue.length < s.B.rcv_wnd.toNat) (x : Seg) (rest : List Seg) (hb : s.A.snd_buf = x :: rest)
+    (hxm : x.xmit ≠ 0) (R T1 IA IB : Nat) (hxr : x.resendts = clk R) (hT : R + IA ≤ T1 ∧ T1 < R + 2 ^ 31)
+    (hiv : s.A.interval.toNat = IA) (hnf : s.nfA ≤ T1) (hnw : s.now ≤ T1) (ht : Tm IB s)
+    (evs : List Ev) (hsm : RunSmallH p.base s evs) (hnow : T1 + s.D + IB + s.D < (Sys.run s evs).now) :
+    o p.base x.sn < o p.base (Sys.run s evs).A.snd_una := by
+  have hhl : s.A.snd_una = x.sn := by
+    have := hs.live.1
+    unfold Live.HeadLive at this
+    rw [hb] at this
+    exact this.2
+  have hrb : o p.base x.sn ≤ o p.base s.B.rcv_nxt := by
+    rw [← hhl]; exact not_behind h hs.srt hs.fix hq
+  exact retH3_done h hs.live (o p.base x.sn) R T1 IA IB hT ht
+    ⟨⟨x, rest, hb, rfl, hxm, hxr⟩, hiv, hnf, hnw, hrb⟩ evs hsm hnow
+
+/-! non-vacuity of `C02_progress_step`: A sends one byte and flushes, the network loses the datagram
+(`shuffle [] []`).  The state is consistent (`cons_side_netRun`), the head has `xmit = 1` and its timer at
+t = 1200 (`rx_rto = 200`), A's next flush is at 1010 ≤ T1 = 1210, B flushes every 10 ms, its queue is
+empty: every hypothesis holds with `R = 1200`, `IA = IB = 10`, `T1 = 1210`. -/
+
+def c02LostPush : List SysC.NetEv := [.fair (.send [0]), .fair .flushA, .shuffle [] []]
+
+example : (∃ gab gba, SysC.Cons ⟨SysC.wedgeA.snd_nxt, SysC.wedgeA.conv, 0, 0, 0⟩
+      (SysC.netRun (Sys.init SysC.wedgeA SysC.wedgeB 0 1000) c02LostPush) gab gba ∧
+      SysC.Side SysC.wedgeA.snd_nxt (SysC.netRun (Sys.init SysC.wedgeA SysC.wedgeB 0 1000) c02LostPush)) ∧
+    (SysC.netRun (Sys.init SysC.wedgeA SysC.wedgeB 0 1000) c02LostPush).ab = [] ∧
+    (SysC.netRun (Sys.init SysC.wedgeA SysC.wedgeB 0 1000) c02LostPush).A.snd_buf.map
+      (fun x => (x.xmit, x.resendts)) = [(1, Sys.clk 1200)] ∧
+    (SysC.netRun (Sys.init SysC.wedgeA SysC.wedgeB 0 1000) c02LostPush).A.interval.toNat = 10 ∧
+    (SysC.netRun (Sys.init SysC.wedgeA SysC.wedgeB 0 1000) c02LostPush).nfA ≤ 1210 ∧
+    (SysC.netRun (Sys.init SysC.wedgeA SysC.wedgeB 0 1000) c02LostPush).B.rcv_queue.length <
+      (SysC.netRun (Sys.init SysC.wedgeA SysC.wedgeB 0 1000) c02LostPush).B.rcv_wnd.toNat ∧
+    SysC.Tm 10 (SysC.netRun (Sys.init SysC.wedgeA SysC.wedgeB 0 1000) c02LostPush) :=
+  ⟨SysC.cons_side_netRun c02LostPush _ [] [] (SysC.cons_init _ _ 0 1000 false false (by decide))
+      (SysC.side_init _ _ 0 1000 false false (by decide)) (by decide),
+   by decide, by decide, by decide, by decide, by decide, ⟨by decide, by decide⟩⟩
 
 end KcpVerif.Props
